@@ -196,6 +196,8 @@ type runner struct {
 	open      bool // an attempt has begun and has not been settled
 	evSeen    bool // ... and the recorder has received its event
 	noRec     bool
+	lazy      bool // settle attempts by the control flow even when a recorder is installed
+	ended     bool // endAttempt has run for the current attempt
 	sticky    bool
 	planPos   []int
 	lastRead  string
@@ -344,6 +346,12 @@ func (rec recorder) RecordEvent(ev trace.Event) {
 		return
 	}
 	r.evSeen = true
+	if r.lazy {
+		// the trace is the thing under test: keep the event, let the control flow say how the attempt ended
+		r.cur.Trace, r.cur.Traced = ev, true
+		return
+	}
+	r.ended = true
 	r.endAttempt(ev.IsAbort, &ev)
 }
 
@@ -357,11 +365,16 @@ func (r *runner) settlePrev(next int) {
 	if next == r.cur.Label {
 		out = OutcomeAborted
 	}
-	if !r.evSeen {
-		if !r.noRec {
-			r.anomalies = append(r.anomalies, fmt.Sprintf("attempt #%d (%s attempt %d, %s by the control flow) produced no trace event", r.cur.Seq, r.cur.LabelName, r.cur.Attempt, verdict(out == OutcomeAborted)))
+	if !r.evSeen && !r.noRec {
+		r.anomalies = append(r.anomalies, fmt.Sprintf("attempt #%d (%s attempt %d, %s by the control flow) produced no trace event", r.cur.Seq, r.cur.LabelName, r.cur.Attempt, verdict(out == OutcomeAborted)))
+	}
+	if !r.ended {
+		var ev *trace.Event
+		if r.cur.Traced {
+			t := r.cur.Trace
+			ev = &t
 		}
-		r.endAttempt(out == OutcomeAborted, nil)
+		r.endAttempt(out == OutcomeAborted, ev)
 	}
 	r.events[len(r.events)-1].Outcome = out
 	r.open = false
@@ -609,6 +622,12 @@ type Options struct {
 	// created itself, e.g. the file recorder of PGO_TRACE_DIR). Commit/abort is then told by the
 	// control flow alone and each attempt is settled when the next one begins.
 	NoRecorder bool
+	// ByControlFlow: keep the harness's recorder but do not believe its IsAbort: attempts are settled
+	// (models updated, observables compared) when the next attempt begins, as with NoRecorder.
+	ByControlFlow bool
+	// Cancel: when closed, the context is stopped and the run reported as INCONCLUSIVE (used to
+	// release programs that wait for a peer that has already failed).
+	Cancel <-chan struct{}
 	// StickyPlan: a planned fault stays first in line until it has actually fired (attempts that
 	// abort earlier because an input was not there yet do not use it up).
 	StickyPlan bool
@@ -617,7 +636,7 @@ type Options struct {
 // Execute runs the program on the real Run loop and returns what was seen.
 func Execute(p *Program, insts []Instance, opt Options) Result {
 	r := &runner{p: p, insts: insts, attempt: make([]int, len(p.Labels)+2), abortedWithEffects: map[int]bool{}, probeDone: map[int]bool{}, async: opt.Async,
-		name: opt.Name, progID: opt.ProgID, noRec: opt.NoRecorder, sticky: opt.StickyPlan, planPos: make([]int, len(p.Labels)), onEvent: opt.OnEvent}
+		name: opt.Name, progID: opt.ProgID, noRec: opt.NoRecorder, lazy: opt.ByControlFlow, sticky: opt.StickyPlan, planPos: make([]int, len(p.Labels)), onEvent: opt.OnEvent}
 	if r.name == "" {
 		r.name = ArchName
 	}
@@ -639,7 +658,7 @@ func Execute(p *Program, insts []Instance, opt Options) Result {
 		r.seq++
 		r.cur = Event{Label: li, LabelName: label(li), Attempt: r.attempt[li], Seq: r.seq, Touched: map[int]bool{}, Kinds: map[string]bool{}}
 		r.attempt[li]++
-		r.open, r.evSeen = true, false
+		r.open, r.evSeen, r.ended = true, false, false
 		r.curFault = nil
 		r.fired = false
 		r.lastRead, r.lastClock = "", nil
@@ -781,6 +800,9 @@ func Execute(p *Program, insts []Instance, opt Options) Result {
 	case <-time.After(timeout):
 		r.fail("INCONCLUSIVE: the run did not finish within %v", timeout)
 		go ctx.Stop() // do not leave the archetype spinning behind the next case
+	case <-opt.Cancel:
+		r.fail("INCONCLUSIVE: cancelled (a peer had already failed)")
+		go ctx.Stop()
 	}
 	if res.RunErr != nil && !errors.Is(res.RunErr, errStop) && r.failure == "" {
 		r.fail("Run returned %v", res.RunErr)
